@@ -80,9 +80,16 @@ def unitsOf (b : Bdf) : Nat :=
   | .scalar len => if unitsOnlyFromList then 1 else len
   | .list n => n
 
-def portKind (type : String) : String :=
-  if dedicatedTypes.contains type then "DedicatedPort"
-  else if sharedTypes.contains type then "SharedPort" else ""
+/-- the row of the generated per-type table (every `ComponentType` has one; anything else gets neutral values) -/
+def rowOf (type : String) : TypeRow :=
+  match typeTable.find? (fun r => r.type == type) with
+  | some r => r
+  | none => { type := type, suffix := "", nsType := "", kind := "", speed := true }
+
+def portKind (type : String) : String := (rowOf type).kind
+
+/-- the speed a port gets: the catalogued one, or none (0) for the types whose row says so (shared NICs) -/
+def portBw (type : String) (speed : Nat) : Nat := if (rowOf type).speed then speed else 0
 
 def genIfaces (e : CEntry) (name : String) (ids : Option (List String)) (labels : Option (List Bdf)) :
     List GIface :=
@@ -90,9 +97,9 @@ def genIfaces (e : CEntry) (name : String) (ids : Option (List String)) (labels 
     let b : Bdf := match labels with
       | some ls => ls.getD i .none
       | none => .none
-    { name := name ++ "-" ++ p.1
+    { name := name ++ ifaceSep ++ p.1
       kind := portKind e.type
-      bw := if sharedTypes.contains e.type then 0 else p.2
+      bw := portBw e.type p.2
       units := unitsOf b
       nodeId := match ids with
         | some l => l[i]?
@@ -110,6 +117,12 @@ def genIfaces (e : CEntry) (name : String) (ids : Option (List String)) (labels 
 inductive GErr where
   | notFound | runtime | type | index
 deriving DecidableEq, Repr
+
+/-- name of the network service inside a component: `[<parent><sep>]<name><suffix>` -/
+def svcName (parent : Option String) (name suffix : String) : String :=
+  match parent with
+  | some p => p ++ parentSep ++ name ++ suffix
+  | none => name ++ suffix
 
 /-- `generate_component` after the type/model strings are resolved -/
 def generate (cat : List CEntry) (name model type : String) (nsId : Option String)
@@ -131,15 +144,37 @@ def generate (cat : List CEntry) (name model type : String) (nsId : Option Strin
       | none, none => .ok (mk e none none)
 where
   mk (e : CEntry) (ids : Option (List String)) (labels : Option (List Bdf)) : GComp :=
-    let fpga := e.type == "FPGA"
-    let suffix := if fpga then fpgaSuffix else otherSuffix
+    let row := rowOf e.type
     { model := e.model, type := e.type, details := e.details
-      nsName := some (match parent with
-        | some p => p ++ "-" ++ name ++ suffix
-        | none => name ++ suffix)
-      nsType := some (if fpga then fpgaNsType else otherNsType)
+      nsName := some (svcName parent name row.suffix)
+      nsType := some row.nsType
       nsId := nsId
       ifaces := genIfaces e name ids labels }
+
+/-! ### object identity: what the library allocates for a generated component
+
+A generated component belongs to its caller.  The mutable objects the library creates for it - the component sliver, and for
+an entry with interfaces the service info, the service, the interface info and per interface the interface sliver, its
+capacities and (unless the caller supplied the label object) its labels - are numbered in allocation order.  The translator
+probes whether two generations share any of them (`freshObjects`); a cache or a shared default would hand out the same ids again. -/
+
+def objCount (e : CEntry) (labels : Option (List Bdf)) : Nat :=
+  if e.hasIfaces then 4 + e.ifaces.length * (match labels with | some _ => 2 | none => 3) else 1
+
+def allocObjs (next : Nat) (n : Nat) : List Nat :=
+  if freshObjects then List.range' next n else List.range' 0 n
+
+/-- object ids of the components generated one after the other in a session (failed generations allocate nothing that survives) -/
+def sessionObjs (cat : List CEntry) (next : Nat) :
+    List (String × String × Option (List String) × Option (List Bdf)) → List (List Nat)
+  | [] => []
+  | (model, type, ids, labels) :: rest =>
+    match generate cat "nm" model type none ids labels none with
+    | .ok _ =>
+      match lookup cat model type with
+      | some e => allocObjs next (objCount e labels) :: sessionObjs cat (next + objCount e labels) rest
+      | none => sessionObjs cat next rest
+    | .error _ => sessionObjs cat next rest
 
 /-- `__massage_name` -/
 def massage (s : String) : String := String.ofList (s.toList.map fun c => if c == ' ' || c == '-' then '_' else c)
